@@ -7,10 +7,11 @@
 (* The only claim made for a mutant is the property's: parsing terminates   *)
 (* with a program XOR a non-empty list of located errors, never a crash.    *)
 (***************************************************************************)
-EXTENDS EvySeeds, Json, TLC
+EXTENDS EvySeeds, Json, TLC, Integers
 
 CONSTANTS Tier,
           Edits1,       \* set of single edits (numbers), applied to every seed
+          Headers,      \* set of header codes
           Edits2        \* set of pairs <<e1, e2>> encoded as e1 * 10 + index into Second
 
 VARIABLE mu
@@ -37,10 +38,19 @@ Apply(ps, e) ==
 
 Second == << 1000300, 1001700, 2000511, 2002205, 3000918, 3004021, 4001000, 5003300, 2007700 + 21, 1009900 >>
 
-Init == mu \in {<<s, e, 0>> : s \in DOMAIN Seeds, e \in Edits1}
+\* ---- definition headers: every sequence of header tokens after `func` / `on` (the signature pre-pass sees
+\* these before anything else is parsed); a header is  code = len * 10000000 + digits base NH
+HdrVocab == << "f", " x", ":", "num", "[]", "{}", "any", "...", " ", "\n", "end", "key", " y:num", "string", "_", "1" >>
+NH == 16
+RECURSIVE HdrSeq(_, _)
+HdrSeq(code, len) == IF len = 0 THEN <<>> ELSE <<HdrVocab[(code % NH) + 1]>> \o HdrSeq(code \div NH, len - 1)
+Header(kw, c) == <<kw>> \o HdrSeq(c % 10000000, c \div 10000000) \o <<"\n", "    print 1\n", "end\n", "print 2\n">>
+
+Init == mu \in {<<s, e, 0>> : s \in DOMAIN Seeds, e \in Edits1} \cup {<<0 - k, h, 0>> : k \in {1, 2}, h \in Headers}
                \cup {<<s, e2 \div 10, Second[(e2 % 10) + 1]>> : s \in DOMAIN Seeds, e2 \in Edits2}
 Next == FALSE /\ UNCHANGED mu
 
-Mutant == LET a == Apply(Seeds[mu[1]], mu[2]) IN IF mu[3] = 0 THEN a ELSE Apply(a, mu[3])
+Mutant == IF mu[1] < 0 THEN Header(IF mu[1] = -1 THEN "func " ELSE "on ", mu[2])
+          ELSE LET a == Apply(Seeds[mu[1]], mu[2]) IN IF mu[3] = 0 THEN a ELSE Apply(a, mu[3])
 Emit == PrintT(ToJson([seed |-> mu[1], e1 |-> mu[2], e2 |-> mu[3], src |-> Mutant]))
 =============================================================================
